@@ -12,6 +12,8 @@ CHECKS = {
  "C01": ("model_checking", "2-3", "All wire assignments of the complete built leaf circuit: 32-bit ranges, fee bound and the integer fee inequality are consequences of the constraint system (UNSAT of constraints ∧ ¬goal), vacuity-guarded."),
  "C02": ("model_checking", "2-3", "All wire assignments of the leaf circuit: nullifier/address bindings to one shared secret and the leaf's count, hash as uninterpreted sponge spec."),
  "C03": ("model_checking", "2-3", "All wire assignments: header preimage order, block-number and tree-root bindings, depth/position ranges, and the 16-level Merkle walk via per-level solver lemmas at cut points."),
+ "C30": ("model_checking", "3 (C30)", "Per (constant,width) instance over every width 1..64: for all field elements and all hint assignments the gadget implies x<2^w and output=(c<x); alias counterexamples are replayed with adversarial hint wires."),
+ "C31": ("model_checking", "3 (C31)", "For list lengths n<=3 (quick) / n<=4 (thorough): every satisfying assignment of the sort gadget has sorted output that is a permutation of the input."),
  "C04": ("model_checking", "2-3", "All wire assignments: the dummy flag is a function of the statement (no witness freedom) and each binding is enforced under each non-sentinel condition."),
 }
 
